@@ -176,6 +176,11 @@ pub fn report_panic(ctx: &mut Ctx, prop: &str, f: Fmt, entry: &str, s: &str, p: 
 
 /// all C04 observations on one string in one format
 pub fn probe(ctx: &mut Ctx, f: Fmt, s: &str, family: &str) {
+    // every 400th call something fails on this thread first (every 8th of those: a caught panic inside
+    // the library, from a user-built format's predicate or a user iterator); the call that follows is checked
+    if ctx.report.evaluations % 400 == 0 {
+        something_fails_first((ctx.report.evaluations / 400) as usize);
+    }
     let n_chars = s.chars().count();
     ctx.journal.about_to(&format!("C04|{}", f.name()), s);
     ctx.report.eval();
@@ -400,6 +405,12 @@ pub fn run(ctx: &mut Ctx) {
                 cases.push((f, if i % 3 == 2 { g.mutate(&base, &mut rng) } else { base }));
             }
             cases.extend(["", "(", "{A,", "<A --> B>. %1;0.9%", "$0.5$ A. :|:"].iter().map(|s| (f, s.to_string())));
+            // (long inputs of many different lengths, cheap to parse: a shared pool of input buffers that is
+            // only used above some size has to hand out, take back and drop buffers all the time)
+            for i in 0..24usize {
+                let base = g.wellformed(&mut rng, 2);
+                cases.push((f, format!("{}{}{}", " ".repeat(40 + 37 * i), base, " ".repeat(17 * (i % 5)))));
+            }
         }
         let rounds = if ctx.thorough { 60 } else { 6 };
         concurrent_family(ctx, "C04", "all enum parser entry points", cases, rounds, |c| {
